@@ -13,6 +13,8 @@ macro_rules! probe {
         #[kani::stub(tracing_core::event::Event::dispatch, dispatch_nop)]
         #[kani::stub(std::fmt::format, crate::stubs::fmt_format_empty)]
         #[kani::stub(rand::rngs::thread::rng, fake_thread_rng)]
+        #[kani::stub(reqwest::Error::is_timeout, reqwest_pred_false)]
+        #[kani::stub(reqwest::Error::is_connect, reqwest_pred_false)]
         #[kani::stub(<rand::rngs::ThreadRng as rand::TryRng>::try_next_u64, fake_try_next_u64)]
         fn $name() {
             let max_attempts: u32 = kani::any();
@@ -35,7 +37,7 @@ macro_rules! probe {
                 let f: fn(bool, u16) -> Result<u32, ProtocolError> = $mk;
                 std::future::ready(f(sel[k % 3], code[k % 3]))
             });
-            let res = block_on(fut, 2);
+            let res = block_on(fut, 1);
             assert!(res.is_some());
             assert!(calls <= max_attempts as usize + 1);
             std::mem::forget(res);
@@ -46,3 +48,30 @@ fn st(code: u16) -> http::StatusCode { http::StatusCode::from_u16(code).unwrap_o
 probe!(p_concrete, |_s, c| Err(ProtocolError::HttpStatus(st(c))));
 probe!(p_two, |s, c| if s { Ok(c as u32) } else { Err(ProtocolError::HttpStatus(st(c))) });
 probe!(p_three, |s, c| if s { Ok(c as u32) } else if c == 777 { Err(ProtocolError::Timeout) } else { Err(ProtocolError::HttpStatus(st(c))) });
+
+#[kani::proof]
+#[kani::unwind(2)]
+fn p_float1() {
+    let initial = any_duration();
+    let max = any_duration();
+    let m = f64::from_bits(kani::any::<u64>());
+    kani::assume(!(m < 0.0));
+    kani::assume(max.as_secs() < TWO_POW_62);
+    let b = spec_next_backoff(initial, m, max);
+    if max.subsec_nanos() == 0 && max.as_secs() <= (1 << 53) {
+        assert!(b <= max);
+    }
+}
+
+#[kani::proof]
+#[kani::unwind(2)]
+fn p_jit1() {
+    let mut delay = any_duration();
+    kani::assume(delay.as_secs() < TWO_POW_62);
+    let w: u64 = kani::any();
+    let v12 = f64::from_bits((w >> 12) | (1023u64 << 52));
+    let jitter = (v12 - 1.0) * 0.3 + 0.0;
+    let jitter_ms = (delay.as_millis() as f64 * jitter) as u64;
+    delay += Duration::from_millis(jitter_ms);
+    assert!(delay.as_secs() < u64::MAX);
+}
